@@ -1,63 +1,20 @@
-(* C13: order independence outside the known classes, noise, the sorting repair, refutations. *)
+(* C13: order independence of the patched pipeline, noise, and the two remaining move-sensitivities. *)
 From Coq Require Import List Arith Lia Bool Permutation.
 Require Import TT.Model.Base TT.Model.Topo TT.Model.C13Order TT.Spec.C13Rel.
 Require Import TT.Proofs.TopoProofs TT.Proofs.C13SortInv TT.Proofs.C13Proofs.
 Import ListNotations.
 
-(* ---------------- outside the classes ---------------- *)
-Lemma commands_indep p w w' : kf_cmd_files p = false -> commands w p = commands w' p.
-Proof. intros H. unfold commands. apply by_files_indep. exact H. Qed.
-Lemma events_indep p w w' : kf_ev_files p = false -> events w p = events w' p.
-Proof. intros H. unfold events. apply by_files_indep. exact H. Qed.
-
-Theorem deterministic_commands : forall p zod w w', kf_cmd_files p = false -> commands_file zod w p = commands_file zod w' p.
-Proof. intros p zod w w' H. unfold commands_file. rewrite (commands_indep p w w' H). reflexivity. Qed.
-Theorem deterministic_events : forall p w w', kf_ev_files p = false ->
-  events_file w p = events_file w' p /\ index_file w p = index_file w' p.
-Proof. intros p w w' H. unfold events_file, index_file. rewrite (events_indep p w w' H). split; reflexivity. Qed.
-
-Lemma param_decls_indep p w w' : kf_param_files p = false ->
-  flat_map param_decl (commands w p) = flat_map param_decl (commands w' p) /\
-  flat_map pschema_decl (commands w p) = flat_map pschema_decl (commands w' p).
-Proof. intros H. unfold commands. rewrite !flat_map_flat_map. split.
-  - apply by_files_indep. exact H.
-  - apply by_files_indep. unfold kf_param_files in H. apply Nat.leb_gt in H. apply Nat.leb_gt.
-    eapply Nat.le_lt_trans; [|exact H]. unfold count_files. apply filter_length_mono.
-    intros f Hf. unfold file_cmds in *. induction (flat_map item_cmds (snd f)) as [|c l IH]; cbn [flat_map] in *; [discriminate|].
-    unfold pschema_decl, param_decl in *. destruct (c_params c); cbn [orb app] in *; auto.
-    destruct (c_chans c); cbn [app nonnil]; auto. Qed.
-
-Lemma index_lookup p w : kf_dupdef p = false -> forall m, lookup (index w p) m = lookup (all_types p) m.
-Proof. intros Hd m. apply lookup_perm; [|apply index_perm].
-  eapply Permutation_NoDup; [apply Permutation_map, Permutation_sym, index_perm|]. apply has_dup_NoDup. exact Hd. Qed.
-Lemma used_canon p w : kf_dupdef p = false -> Permutation (used (index w p) p) (used (all_types p) p).
-Proof. intros Hd. apply used_perm; [apply index_lookup; auto| |]; intros x; tauto. Qed.
-
-Theorem deterministic_types : forall p zod w w', kf_dupdef p = false -> kf_types_thm zod p = false ->
-  types_file zod w p = types_file zod w' p.
-Proof. intros p zod w w' Hd Hk. unfold kf_types_thm in Hk. apply orb_false_iff in Hk as [Hpf Hu].
-  destruct (param_decls_indep p w w' Hpf) as [Hp1 Hp2].
-  assert (Hl : forall m, lookup (index w p) m = lookup (index w' p) m) by (intros; rewrite !index_lookup; auto).
-  unfold kf_used2 in Hu. apply Nat.leb_gt in Hu.
-  unfold types_file. rewrite Hp1, Hp2. destruct zod.
-  - f_equal. replace (zod_order w (index w p) p) with (zod_order w' (index w' p) p).
-    + unfold type_decls_zod. apply flat_map_ext. intros a. rewrite Hl. reflexivity.
-    + apply (perm_short_eq (used (all_types p) p)); auto.
-      * eapply perm_trans; [apply zod_order_perm|apply used_canon; auto].
-      * eapply perm_trans; [apply zod_order_perm|apply used_canon; auto].
-  - f_equal. replace (order_by ident (w_used w) (used (index w p) p)) with (order_by ident (w_used w') (used (index w' p) p)).
-    + unfold type_decls_plain. apply flat_map_ext. intros a. rewrite Hl. reflexivity.
-    + apply (perm_short_eq (used (all_types p) p)); auto.
-      * eapply perm_trans; [apply order_by_perm|apply used_canon; auto].
-      * eapply perm_trans; [apply order_by_perm|apply used_canon; auto]. Qed.
-
-Theorem deterministic : forall p zod w w', kf_dupdef p = false ->
-  kf_cmd_files p = false -> kf_ev_files p = false -> kf_types_thm zod p = false ->
-  gen zod w p = gen zod w' p.
-Proof. intros p zod w w' Hd Hc He Ht. unfold gen. rewrite (commands_indep p w w' Hc).
-  destruct (commands w' p); auto. f_equal.
-  rewrite (deterministic_types p zod w w' Hd Ht), (deterministic_commands p zod w w' Hc).
-  destruct (deterministic_events p w w' He) as [-> ->]. reflexivity. Qed.
+(* ---------------- sorting before use ---------------- *)
+Lemma ns_eq o l : sort_names (order_by ident o l) = sort_names l.
+Proof. apply sort_names_invariant. apply order_by_perm. Qed.
+Lemma repaired_indep p w w' : repaired w p = repaired w' p.
+Proof. unfold repaired. rewrite !ns_eq. f_equal.
+  - apply sort_names_invariant. apply Permutation_map. eapply perm_trans; [apply files_perm|apply Permutation_sym, files_perm].
+  - apply map_ext. intros n. rewrite !ns_eq. reflexivity. Qed.
+Theorem order_independent : forall p zod w w', gen zod w p = gen zod w' p.
+Proof. intros p zod w w'. unfold gen. rewrite (repaired_indep p w w'). reflexivity. Qed.
+Theorem viz_independent : forall p w w', viz w p = viz w' p.
+Proof. intros p w w'. unfold viz. rewrite (repaired_indep p w w'). reflexivity. Qed.
 
 (* ---------------- noise ---------------- *)
 Lemma flat_map_filter_nil {A B} (h : A -> list B) (keep : A -> bool) l :
@@ -74,7 +31,7 @@ Proof. unfold files_in_order, order_by, denoise. apply isort_map. intros a b. re
 Lemma flat_map_map_same {A B} (h : A -> list B) (g : A -> A) l : (forall a, h (g a) = h a) -> flat_map h (map g l) = flat_map h l.
 Proof. intros H. induction l as [|a l IH]; cbn [map flat_map]; auto. rewrite H, IH. reflexivity. Qed.
 
-Theorem noise : forall p zod w, gen zod w (denoise p) = gen zod w p.
+Lemma noise_raw : forall p zod w, gen_raw zod w (denoise p) = gen_raw zod w p.
 Proof. intros p zod w.
   assert (Hc : commands w (denoise p) = commands w p).
   { unfold commands. rewrite files_denoise. apply flat_map_map_same. intros; apply denoise_file_same. }
@@ -89,8 +46,16 @@ Proof. intros p zod w.
   assert (Hu : forall idx, used idx (denoise p) = used idx p) by (intros; unfold used; rewrite Hcr, Her; reflexivity).
   assert (Hz : forall idx, zod_order w idx (denoise p) = zod_order w idx p).
   { intros. unfold zod_order, zod_graph, discovered. rewrite Hu, Hcr, Her. reflexivity. }
-  unfold gen, types_file, commands_file, events_file, index_file. rewrite Hc, He, Hi, Hu, Hz. reflexivity. Qed.
+  unfold gen_raw, types_file, commands_file, events_file, index_file. rewrite Hc, He, Hi, Hu, Hz. reflexivity. Qed.
 
+Lemma repaired_denoise w p : repaired w (denoise p) = repaired w p.
+Proof. unfold repaired.
+  assert (Hn : names_of (denoise p) = names_of p).
+  { unfold names_of, denoise. f_equal. apply flat_map_map_same. intros; apply denoise_file_same. }
+  rewrite Hn. f_equal. f_equal. rewrite files_denoise, map_map. apply map_ext. intros f. reflexivity. Qed.
+
+Theorem noise : forall p zod w, gen zod w (denoise p) = gen zod w p.
+Proof. intros p zod w. unfold gen. rewrite repaired_denoise. apply noise_raw. Qed.
 Corollary noise_equiv : forall p p' zod w, denoise p = denoise p' -> gen zod w p = gen zod w p'.
 Proof. intros p p' zod w H. rewrite <- (noise p), <- (noise p'), H. reflexivity. Qed.
 
@@ -98,48 +63,47 @@ Proof. intros p p' zod w H. rewrite <- (noise p), <- (noise p'), H. reflexivity.
 Lemma noise_file_contrib f : noise_file f = true -> file_cmds f = [] /\ file_events f = [] /\ file_types f = [].
 Proof. unfold noise_file, file_cmds, file_events, file_types. intros H. rewrite forallb_forall in H.
   repeat split; apply flat_map_all_nil; intros it Hit; apply noise_contrib; rewrite (H it Hit); reflexivity. Qed.
-Theorem noise_file_thm : forall f p zod w, noise_file f = true -> gen zod w (f :: p) = gen zod w p.
-Proof. intros f p zod w H. destruct (noise_file_contrib f H) as (H1 & H2 & H3).
-  assert (Hc : commands w (f :: p) = commands w p).
-  { unfold commands, files_in_order, order_by. cbn [isort]. apply flat_map_insert_nil; auto. }
-  assert (He : events w (f :: p) = events w p).
-  { unfold events, files_in_order, order_by. cbn [isort]. apply flat_map_insert_nil; auto. }
-  assert (Hi : index w (f :: p) = index w p).
-  { unfold index, files_in_order, order_by. cbn [isort]. apply flat_map_insert_nil; auto. }
-  assert (Hcr : cmd_roots (f :: p) = cmd_roots p) by (unfold cmd_roots, all_cmds; cbn [flat_map]; rewrite H1; reflexivity).
-  assert (Her : ev_roots (f :: p) = ev_roots p) by (unfold ev_roots, all_events; cbn [flat_map]; rewrite H2; reflexivity).
-  assert (Hu : forall idx, used idx (f :: p) = used idx p) by (intros; unfold used; rewrite Hcr, Her; reflexivity).
-  assert (Hz : forall idx, zod_order w idx (f :: p) = zod_order w idx p).
-  { intros. unfold zod_order, zod_graph, discovered. rewrite Hu, Hcr, Her. reflexivity. }
-  unfold gen, types_file, commands_file, events_file, index_file. rewrite Hc, He, Hi, Hu, Hz. reflexivity. Qed.
+Theorem noise_file_thm : forall f p zod w w', noise_file f = true -> kf_dupdef p = false -> kf_dupevent p = false ->
+  out_perm (gen zod w p) (gen zod w' (f :: p)).
+Proof. intros f p zod w w' H Hd He. destruct (noise_file_contrib f H) as (H1 & H2 & H3).
+  unfold gen. apply raw_perm; auto.
+  - unfold all_cmds. cbn [flat_map]. rewrite H1. apply Permutation_refl.
+  - unfold all_events. cbn [flat_map]. rewrite H2. apply Permutation_refl.
+  - unfold all_types. cbn [flat_map]. rewrite H3. apply Permutation_refl. Qed.
 
-(* ---------------- the repair ---------------- *)
-Lemma ns_eq o l : sort_names (order_by ident o l) = sort_names l.
-Proof. apply sort_names_invariant. apply order_by_perm. Qed.
-Theorem sorted_fix : forall p zod w w', gen_fixed zod w p = gen_fixed zod w' p.
-Proof. intros p zod w w'. unfold gen_fixed. f_equal. unfold repaired. rewrite !ns_eq.
-  f_equal.
-  - apply sort_names_invariant. apply Permutation_map. eapply perm_trans; [apply files_perm|apply Permutation_sym, files_perm].
-  - apply map_ext. intros n. rewrite !ns_eq. reflexivity. Qed.
-
-(* ---------------- refutations (computed witnesses) ---------------- *)
+(* ---------------- witnesses ---------------- *)
 Definition mk_cmd (n : name) (roots : list name) : item :=
   ICmd {| c_name := n; c_roots := roots; c_params := negb (match roots with [] => true | _ => false end); c_chans := false |} [].
 Definition mk_type (n : name) (deps : list name) (body : nat) : item :=
   IType {| t_name := n; t_deps := deps; t_body := body; t_enum := false |}.
+Definition mk_ev (e : name) (roots : list name) (pay : nat) : ev := {| e_name := e; e_roots := roots; e_pay := pay |}.
 Definition w_of (files : list name) : omega :=
   {| w_files := files; w_used := []; w_req := []; w_deps := []; w_res := []; w_dmap := [] |}.
+(* the old refutation witness of order independence: two files, one command each *)
 Definition p_two_cmds : project := [(1, [mk_cmd 1 []]); (2, [mk_cmd 2 []])].
+(* one type name in two files; p_dupdef_moved has the two definitions exchanged between the files *)
 Definition p_dupdef : project := [(1, [mk_type 1 [] 0; mk_cmd 1 [1]]); (2, [mk_type 1 [] 1])].
+Definition p_dupdef_moved : project := [(1, [mk_type 1 [] 1; mk_cmd 1 [1]]); (2, [mk_type 1 [] 0])].
+(* one event name emitted with two payload types; p_dupevent_swapped has the two functions exchanged *)
+Definition p_dupevent : project := [(1, [mk_cmd 1 []; IFn [mk_ev 1 [] 0]; IFn [mk_ev 1 [] 1]])].
+Definition p_dupevent_swapped : project := [(1, [mk_cmd 1 []; IFn [mk_ev 1 [] 1]; IFn [mk_ev 1 [] 0]])].
 
-Theorem order_independent_refuted :
-  exists p w w', kf_dupdef p = false /\ kf_order false p = true /\ gen false w p <> gen false w' p.
-Proof. exists p_two_cmds, (w_of [1; 2]), (w_of [2; 1]). split; [reflexivity|]. split; [reflexivity|].
-  vm_compute. intros H. discriminate H. Qed.
-
-Theorem content_refuted :
-  exists p w w' o o', kf_dupdef p = true /\ gen false w p = Some o /\ gen false w' p = Some o' /\
+Theorem move_dupdef_refuted :
+  exists p p' w o o', Permutation (all_items p) (all_items p') /\ kf_dupdef p = true /\ kf_dupevent p = false /\
+    gen false w p = Some o /\ gen false w p' = Some o' /\
     In (DType 1 0) (o_types o') /\ ~ In (DType 1 0) (o_types o).
-Proof. exists p_dupdef, (w_of [1; 2]), (w_of [2; 1]).
-  eexists. eexists. split; [reflexivity|]. split; [vm_compute; reflexivity|]. split; [vm_compute; reflexivity|].
+Proof. exists p_dupdef, p_dupdef_moved, (w_of [2; 1]). eexists. eexists.
+  split. { cbn. apply perm_trans with (l' := [mk_cmd 1 [1]; mk_type 1 [] 0; mk_type 1 [] 1]).
+           apply perm_swap. apply perm_trans with (l' := [mk_cmd 1 [1]; mk_type 1 [] 1; mk_type 1 [] 0]).
+           apply perm_skip. apply perm_swap. apply perm_swap. }
+  split; [reflexivity|]. split; [reflexivity|]. split; [vm_compute; reflexivity|]. split; [vm_compute; reflexivity|].
   split. - left. reflexivity. - cbn [o_types]. intros [H|[H|[]]]; discriminate H. Qed.
+
+Theorem move_dupevent_refuted :
+  exists p p' w o o', Permutation (all_items p) (all_items p') /\ kf_dupdef p = false /\ kf_dupevent p = true /\
+    gen false w p = Some o /\ gen false w p' = Some o' /\
+    o_events o = Some [DListener 1 0] /\ o_events o' = Some [DListener 1 1].
+Proof. exists p_dupevent, p_dupevent_swapped, (w_of [1]). eexists. eexists.
+  split. { cbn. apply perm_skip. apply perm_swap. }
+  split; [reflexivity|]. split; [reflexivity|]. split; [vm_compute; reflexivity|]. split; [vm_compute; reflexivity|].
+  split; reflexivity. Qed.
